@@ -30,7 +30,7 @@ MAIN = 'xdoctest.__main__.main'
 
 
 def run(ctx):
-    for fn in (r1_flags, r2_failed_list, r3_keys, r4_exit_status, r5_gathering, r6_disable_marker_anchored, r7_no_mutation_of_iterated_lists):
+    for fn in (r1_flags, r2_failed_list, r3_keys, r4_exit_status, r5_gathering, r6_disable_marker_anchored, r7_no_mutation_of_iterated_lists, r8_list_names_every_example):
         ctx.rep.rule(fn, ctx)
 
 
@@ -564,6 +564,15 @@ def r5_gathering(ctx):
     f = ctx.func(DM)
     g = ctx.cfg(f)
     rd = ctx.rd(f)
+    # a doctest is named by exact membership in its set of valid names
+    for func in [f] + [h for h in ctx.prog.funcs.values() if h.module is f.module and h.cls is None and h is not f]:
+        for x in walk_scope(func.node):
+            if isinstance(x, ast.Compare) and len(x.ops) == 1 and isinstance(x.ops[0], (ast.In, ast.NotIn)) and is_name(x.left, 'command') and isinstance(x.comparators[0], ast.Attribute) \
+                    and isinstance(x.comparators[0].value, ast.Name) and x.comparators[0].value.id in ('example', 'ex', 'e') and x.comparators[0].attr != 'valid_testnames':
+                rep.ob('C10.R5', ctx.loc(func, x), ctx.src(x), False,
+                       'the requested name is looked up in `%s`, not in the set of valid names of the doctest: with a string this is a substring test, so naming `check:0` also runs '
+                       '`recheck:0` (and force-disabled doctests whose name contains it)' % ctx.src(x.comparators[0]), anchor=func.qualname)
+                return
     gathered, where, n_sites = _gathering_model(ctx, f, g)
     rep.floor('C10.R5', 'selection sites over the collected examples', n_sites, 1)
     a = where
@@ -845,6 +854,11 @@ def disable_marker_anchored(ctx, rule):
     pats = sorted({p for v in sets.values() for a in v for p in a['alts']})
     ok = bool(pats) and all(p.lstrip('\\A^').startswith('>>>') for p in pats)
     rep.ob(rule, ctx.loc(f, f.node), 'every marker pattern starts with the prompt', ok, '%d pattern(s)' % len(pats), nontrivial=False, anchor=f.qualname)
+    fused = [p for p in pats if p.count('>>>') > 1]
+    rep.ob(rule, ctx.loc(f, f.node), 'one marker per pattern', not fused,
+           'each alternative holds the prompt once' if not fused else
+           'the alternative(s) %s hold the prompt more than once: two adjacent string literals of the pattern list were concatenated (a comma is missing), so neither marker is '
+           'recognised any more and such doctests are run by `all`' % fused, anchor=f.qualname)
 
 
 def r7_no_mutation_of_iterated_lists(ctx):
@@ -868,6 +882,38 @@ def r6_disable_marker_anchored(ctx):
     disable_marker_anchored(ctx, 'C10.R6')
 
 
+def r8_list_names_every_example(ctx):
+    """`list` names every collected doctest: in the list branch of doctest_module the names are produced by ONE unfiltered pass over the collected
+    examples and are logged at the default level (the level every other result line of the runner uses), not only when verbosity is raised"""
+    rep = ctx.rep
+    f = ctx.func(DM)
+    g = ctx.cfg(f)
+    dom = ctx.dom(g, g.entry)
+    sites = []
+    for n in g.nodes:
+        if n.dup or n.kind != 'stmt':
+            continue
+        facts = graph.guard_facts(dom, n)
+        if not any(fa.polarity is True and isinstance(fa.expr, ast.Compare) and is_name(fa.expr.left, 'command') and len(fa.expr.comparators) == 1 and
+                   isinstance(fa.expr.comparators[0], ast.Constant) and fa.expr.comparators[0].value == 'list' and isinstance(fa.expr.ops[0], ast.Eq) for fa in facts):
+            continue
+        for c in node_calls(n):
+            comps = [x for x in ast.walk(c) if isinstance(x, (ast.ListComp, ast.GeneratorExp)) and len(x.generators) == 1 and is_name(x.generators[0].iter, 'examples')]
+            if comps and any(c is cc for cc in [c]) and not any(isinstance(p_, ast.Call) and p_ is not c and any(x is comps[0] for x in ast.walk(p_)) and
+                                                                 isinstance(p_.func, ast.Name) and p_.func.id == c.func.id if isinstance(c.func, ast.Name) else False for p_ in ast.walk(c)):
+                if isinstance(c.func, ast.Name):
+                    sites.append((n, c, comps[0]))
+    need(sites, 'C10.R8: the listing of the collected examples under command == "list" was not recognised')
+    for (n, c, comp) in sites:
+        ok_f = not comp.generators[0].ifs
+        rep.ob('C10.R8', ctx.loc(f, comp), ctx.src(comp, 80), ok_f, 'every collected example is named' if ok_f else 'the listing filters the collected examples', anchor=DM)
+        lv = next((k.value for k in c.keywords if k.arg == 'level'), None)
+        ok_l = lv is None or (isinstance(lv, ast.Constant) and isinstance(lv.value, int) and lv.value <= 1)
+        rep.ob('C10.R8', ctx.loc(f, c), '%s(<names>%s)' % (ctx.src(c.func), '' if lv is None else ', level=%s' % ctx.src(lv)), ok_l,
+               'logged at the default level' if ok_l else
+               'the names are logged at level %s only: at the default / lower verbosity `list` prints nothing and still exits 0' % ctx.src(lv), anchor=DM)
+
+
 # ---------------------------------------------------------------------------
 from ..selftest import fire, silent      # noqa: E402
 
@@ -875,6 +921,9 @@ RN = 'xdoctest/runner.py'
 MA = 'xdoctest/__main__.py'
 DE = 'xdoctest/doctest_example.py'
 VARIANTS = [
+    fire('two-disable-markers-fused', 'C10.R6', (DE, "            r'>>>\\s*#\\s*SCRIPT',\n", "            r'>>>\\s*#\\s*SCRIPT'\n")),
+    fire('named-by-substring-of-callname', 'C10.R5', (RN, "            if gather_all or command in example.valid_testnames:\n", "            if gather_all or command in example.unique_callname:\n")),
+    fire('list-only-when-verbose', 'C10.R8', (RN, "                                          for example in examples]))\n", "                                          for example in examples]), level=2)\n")),
     fire('disable-marker-searched-anywhere', 'C10.R6', ('xdoctest/doctest_example.py', "        m = re.match(pattern, self.docsrc, flags=re.IGNORECASE)\n", "        m = re.search(pattern, self.docsrc, flags=re.IGNORECASE)\n")),
     fire('exit-status-is-the-count', 'C10.R4', ('xdoctest/__main__.py', "    if n_failed > 0:\n        return 1\n    else:\n        return 0\n", "    return n_failed\n")),
     silent('exit-status-capped', ('xdoctest/__main__.py', "    if n_failed > 0:\n        return 1\n    else:\n        return 0\n", "    return min(n_failed, 1)\n")),
